@@ -63,12 +63,37 @@ def quick_sample(fn, c, db):
     return v in keep
 
 
+def load_exclusions(prop):
+    p = os.path.join(ROOT, 'coverage_exclusions.json')
+    if not os.path.exists(p):
+        return []
+    return [e for e in json.load(open(p)).get('exclusions', []) if e['property'] == prop]
+
+
+def excluded(excl, c, fn, cfg):
+    ident = '%s(%s) [%s]' % (fn['name'], ', '.join(p['ctype'] for p in fn['params']), fn.get('owner') or '-')
+    for e in excl:
+        if e.get('family_regex') and not re.search(e['family_regex'], c.family):
+            continue
+        if e.get('function_regex') and not re.search(e['function_regex'], ident):
+            continue
+        if e.get('configurations') and cfg not in e['configurations']:
+            continue
+        return e
+    return None
+
+
+NOT_COVERED = []
+
+
 def gather(prop, cfgs, only=None, tier='thorough'):
     """-> (obligations deduplicated by TU text, per-config stats, extraction problems)"""
     obs = {}
     stats = {}
     problems = []
     dbs = {}
+    excl = load_exclusions(prop)
+    del NOT_COVERED[:]
     res = P.extract_many(cfgs)
     for cfg in cfgs:
         db = P.load_db(cfg)
@@ -84,10 +109,15 @@ def gather(prop, cfgs, only=None, tier='thorough'):
                 continue
             if tier == 'quick' and not quick_sample(fn, c, db):
                 continue
+            ex = excluded(excl, c, fn, cfg)
+            if ex:
+                NOT_COVERED.append({'function': '%s %s(%s) [%s]' % (c.family, fn['name'], ', '.join(p['ctype'] for p in fn['params']), fn.get('owner') or '-'),
+                                    'configuration': cfg, 'reason': ex['reason'][:160]})
+                continue
             if only and not re.search(only, '%s %s %s %s' % (c.family, fn['name'], fn.get('owner'), ' '.join(p['ctype'] for p in fn['params']))):
                 continue
             n += 1
-            for cpart in c.split():
+            for cpart in c.split(tier):
                 try:
                     ob = P.build_obligation(prop, cfg, db, fn, cpart)
                 except (P.tu.ExtractionError, P.cxx2c.Abort) as e:
@@ -102,6 +132,8 @@ def gather(prop, cfgs, only=None, tier='thorough'):
                     obs[ob.key] = ob
         # functions that match a family of this property but failed to extract are problems, not silence
         for cn, fn in db['functions'].items():
+            if fn.get('error') and 'without body: fmod' in fn['error']:
+                continue    # float operator% / fmod is declared but not defined in AVEL (a compile/link matter: C19), not an extraction failure
             if fn.get('error') and fn.get('name') and families.name_in_property(fn.get('name'), prop):
                 problems.append('%s: %s (%s): extraction failed: %s' % (cfg, fn.get('name'), cn, fn['error'][:200]))
         stats[cfg] = {'functions_under_contract': n, 'functions_extracted': len(db['functions']) - nerr,
@@ -195,6 +227,7 @@ def check_property(prop, tier, configs=None, only=None, keep=False, write_eviden
         known = [k for k in load_known() if k['property'] == prop and k.get('status') == 'open']
         n_cbmc = 0
         n_discharged = 0
+        n_partial = 0
         passed = []
         undecided = []
         violations = []
@@ -209,8 +242,11 @@ def check_property(prop, tier, configs=None, only=None, keep=False, write_eviden
                 trusted.add(e)
             if v == 'pass':
                 passed.append(ob)
-                n_cbmc += r['n_props']
-                n_discharged += r['n_props']
+                if getattr(ob.contract, 'partial', None):
+                    n_partial += r['n_props']       # partial-domain: reported, never counted as proved
+                else:
+                    n_cbmc += r['n_props']
+                    n_discharged += r['n_props']
             elif v == 'undecided':
                 undecided.append((ob, why))
             else:
@@ -226,6 +262,7 @@ def check_property(prop, tier, configs=None, only=None, keep=False, write_eviden
         # known findings: a failing obligation that matches an open finding is discharged a second time with the
         # finding's input region excluded (requires !predicate); only if that residual passes is it a KNOWN-FINDING
         residual = []
+        new_viol = []
         for ob in violations:
             hit = replay.match_known(ob, known)
             if not hit:
@@ -253,9 +290,12 @@ def check_property(prop, tier, configs=None, only=None, keep=False, write_eviden
                 elif v == 'undecided':
                     undecided.append((rob.parent, 'residual obligation (known finding region excluded) undecided: ' + (why or '')))
                     rob.parent.known = rob.hit
-                # v == 'fail': a violation outside the known region -> reported below as a VIOLATION
-        for ob in violations:
-            if getattr(ob, 'known', None):
+                else:
+                    # a violation OUTSIDE the known region: report the residual obligation's own counterexample
+                    rob.parent.known = rob.hit
+                    new_viol.append(rob)
+        for ob in violations + new_viol:
+            if getattr(ob, 'known', None) and ob not in new_viol:
                 continue
             rp = replay.record_and_replay(prop, ob, dbs[ob.cfgs[0]], sc)
             if rp['status'] == 'not-reproduced':
@@ -288,7 +328,7 @@ def check_property(prop, tier, configs=None, only=None, keep=False, write_eviden
             prop, tier, len(obs), n_discharged, len(viol_lines), len(known_hits), len(undecided), len(canaries), len(bad_canaries), wall))
         if write_evidence:
             write_ev(prop, tier, cfgs, obs, passed, violations, known_hits, undecided, canaries, bad_canaries, stats, problems,
-                     n_cbmc, n_discharged, solver_s, trusted, wall, len(viol_lines))
+                     n_cbmc, n_discharged, solver_s, trusted, wall, len(viol_lines), n_partial)
     finally:
         if not keep:
             sc.cleanup()
@@ -301,7 +341,7 @@ PROPS_NA = {'C19': 'compile/link matrix facts are not expressible as function co
 
 
 def write_ev(prop, tier, cfgs, obs, passed, violations, known_hits, undecided, canaries, bad_canaries, stats, problems,
-             n_cbmc, n_discharged, solver_s, trusted, wall, nviol):
+             n_cbmc, n_discharged, solver_s, trusted, wall, nviol, n_partial=0):
     fams = collections.Counter(ob.contract.family for ob in obs)
     samples = []
     for ob in sorted(passed, key=lambda o: o.key)[:6]:
@@ -325,6 +365,10 @@ def write_ev(prop, tier, cfgs, obs, passed, violations, known_hits, undecided, c
             'known_findings_hit': [h['id'] for ob, h in known_hits],
             'canaries_run': len(canaries), 'canaries_failed_as_required': len(canaries) - len(bad_canaries),
             'extraction_problems': problems[:50],
+            'partial_domain_obligations_discharged_not_counted_as_proof': n_partial,
+            'not_covered': NOT_COVERED[:200],
+            'not_covered_count': len(NOT_COVERED),
+            'partial_domain_functions': sorted({ob.ident() + ': ' + ob.contract.partial for ob in obs if getattr(ob.contract, 'partial', None)})[:80],
             'solver_seconds_by_backend': {k: round(v, 1) for k, v in solver_s.items()},
             'samples': samples,
             'explanation': 'Each function under contract is extracted mechanically from /repo (clang typed AST -> C), its contract '
